@@ -410,6 +410,7 @@ def run_lines_guarded(exe, cases, per_case_timeout=10.0):
     res = {}
     proc = None
     hangs = 0
+    retries = 0
 
     def start():
         return subprocess.Popen([exe], stdin=subprocess.PIPE, stdout=subprocess.PIPE, stderr=subprocess.DEVNULL,
@@ -433,6 +434,19 @@ def run_lines_guarded(exe, cases, per_case_timeout=10.0):
             proc = None
             continue
         ready, _, _ = select.select([proc.stdout], [], [], per_case_timeout)
+        if not ready and retries < 6:
+            # before calling it a hang: the same case once more, alone, with a deadline six times as long (a loaded
+            # machine must not turn a slow case into a violation)
+            retries += 1
+            proc.kill()
+            proc.wait()
+            proc = start()
+            try:
+                proc.stdin.write(json.dumps(c, separators=(",", ":")) + "\n")
+                proc.stdin.flush()
+                ready, _, _ = select.select([proc.stdout], [], [], max(6 * per_case_timeout, 30.0))
+            except BrokenPipeError:
+                ready = False
         if not ready:
             proc.kill()
             proc.wait()
